@@ -40,7 +40,7 @@ def plan(tier, seed):
     return {
         "units": units, "universes": {n: len(s) for n, s, _ in us},
         "bounds": {"base states": "fresh diagram (stub root); fully expanded diagram (every node)",
-                   "prefix alphabet": "cand(node, 4 option combos), seeds(node), sets(node), reclaim, pickle; all prefixes up to the "
+                   "prefix alphabet": "cand(node, 4 option combos), seeds(node), sets(node), reclaim, pickle, succ(node); all prefixes up to the "
                                       "depth given per universe, then sets(node)",
                    "prefix depth": {n: d for n, _, d in us},
                    "fallback": "symbolic_attractor_fallback(node) directly, and seeds(node, symbolic_fallback=True) forced by "
@@ -55,7 +55,7 @@ def plan(tier, seed):
 
 def prefix_ops(node):
     return [("cand", node, g, s) for g in (True, False) for s in (True, False)] + \
-           [("seeds", node), ("sets", node), ("reclaim",), ("pickle",)]
+           [("seeds", node), ("sets", node), ("reclaim",), ("pickle",), ("succ", node)]
 
 
 def judge_sets(net, sd, node):
